@@ -530,6 +530,10 @@ def aligned_scripts(prop, desc_len, max0, distances=QUICK_DISTANCES):
         sc["interleaved"] = ([on, tok("SETUP", 0, 0), dat("DATA0", GS), tok("OUT", 0, 2), dat("DATA0", [1, 2, 3]),
                               tok("IN", 9, 0), tok("IN", 0, 1), tok("IN", 0, 0), dict(ACK), tok("OUT", 9, 0),
                               dat("DATA1", []), tok("OUT", 0, 0), dat("DATA1", [])], 0)
+        sc["in-during-status-out"] = ([tok("SETUP", 0, 0), dat("DATA0", GS), tok("IN", 0, 0), dict(ACK), tok("OUT", 0, 0),
+                                       dat("DATA1", [], ok=False), tok("IN", 0, 0), tok("OUT", 0, 0), dat("DATA1", [])], 0)
+        sc["out-during-status-in"] = ([tok("SETUP", 0, 0), dat("DATA0", S(0, 9, 1, 0, 0)), tok("OUT", 0, 0), dat("DATA1", []),
+                                       tok("IN", 0, 0), dict(ACK)], 0)
         sc["status-retry"] = ([tok("SETUP", 0, 0), dat("DATA0", GS), tok("IN", 0, 0), dict(ACK), tok("OUT", 0, 0),
                                dat("DATA1", [], ok=False), tok("OUT", 0, 0), dat("DATA1", [])], 0)
     if prop == "C08":
